@@ -20,7 +20,6 @@ import (
 	"strings"
 	"sync"
 	"sync/atomic"
-	"time"
 
 	"github.com/innovationb1ue/RedisGO/server"
 )
@@ -58,12 +57,17 @@ func runBigval(seed uint64, tier string, outdir string, tcp bool) (string, error
 	cfg := setupServer(dir)
 	mgr := server.NewManager(cfg)
 	n := 256 << 10
-	if v, err := strconv.Atoi(os.Getenv("VERIF_CONC_BIGN")); err == nil && v > 0 {
-		n = v
-	}
 	nw, nr, wops, rops := 4, 4, 60, 150
 	if tier == "thorough" {
 		wops, rops = 600, 1500
+	}
+	if raceEnabled {
+		// the race detector does the work there: smaller values, fewer commands
+		n = 32 << 10
+		wops, rops = wops/4+1, rops/4+1
+	}
+	if v, err := strconv.Atoi(os.Getenv("VERIF_CONC_BIGN")); err == nil && v > 0 {
+		n = v
 	}
 	if v, err := strconv.Atoi(os.Getenv("VERIF_CONC_BIGR")); err == nil && v > 0 {
 		nr = v
@@ -75,6 +79,7 @@ func runBigval(seed uint64, tier string, outdir string, tcp bool) (string, error
 	key := "bigval"
 
 	var yieldTick atomic.Int64
+	var prog progress
 	var exec func(slot int, cmd [][]byte) []byte // serialised reply (letters are payload only)
 	closeAll := func() {}
 	if tcp {
@@ -138,6 +143,7 @@ func runBigval(seed uint64, tier string, outdir string, tcp bool) (string, error
 					exec(w, [][]byte{[]byte("SETRANGE"), []byte(key), []byte("0"), val})
 				}
 				writes.Add(1)
+				prog.tick()
 				if i > 200*wops {
 					break
 				}
@@ -162,6 +168,7 @@ func runBigval(seed uint64, tier string, outdir string, tcp bool) (string, error
 				}
 				out := exec(nw+rd, cmd)
 				reads.Add(1)
+				prog.tick()
 				counts, fc := letterStats(out)
 				total := 0
 				for _, c := range counts {
@@ -188,15 +195,7 @@ func runBigval(seed uint64, tier string, outdir string, tcp bool) (string, error
 	done := make(chan struct{})
 	go func() { wg.Wait(); close(done) }()
 	close(start)
-	status := "OK"
-	select {
-	case <-done:
-	case <-time.After(120 * time.Second):
-		status = "HANG"
-		buf := make([]byte, 1<<22)
-		nb := runtime.Stack(buf, true)
-		os.WriteFile(filepath.Join(dir, "hang.txt"), buf[:nb], 0o644)
-	}
+	status := awaitDone(done, &prog, dir, tier)
 	var b strings.Builder
 	for _, r := range reports {
 		b.WriteString(r + "\n")
